@@ -195,7 +195,7 @@ def validate_fs_traces(results, specs, chunk=400):
 
 def blank_raw(ev, case):
     return dict(ev=ev, case=case, op="", nr="", dfd=-1, dclass="", d2class="", path="", path2="", flags=0, resolve=0, ret=0,
-                fd=-1, newfd=-1, cmd=0, intree=False, lent=[], opened=[], closed=[], changed=[], retfd=-1, wpid=0, traced=False)
+                fd=-1, newfd=-1, cmd=0, intree=False, lent=[], opened=[], closed=[], changed=[], retfd=-1, wpid="", traced=False)
 
 
 def project_raw(res, case_spec):
@@ -254,7 +254,7 @@ def project_raw(res, case_spec):
         en["opened"] = [[x["fd"], bool(x.get("cloexec")), bool(x.get("procroot"))] for x in r.get("fds_opened", [])]
         en["closed"] = [x["fd"] for x in r.get("fds_closed", [])]
         en["changed"] = [x["fd"] for x in r.get("fds_changed", [])]
-        en["wpid"] = r.get("wpid", 0)
+        en["wpid"] = str(r.get("wuid") or r.get("wpid", 0))
         out.append(en)
     return out
 
